@@ -41,6 +41,13 @@ def E_BINDING(**kw):
     return d
 
 
+def E_ROUNDTRIP(**kw):
+    d = dict(mode="E", schemas=[dict(name="roundtrip", run="go,go-http,go-client")], load_pkgs=["./gen/roundtrip"], pkgpath="verifmod/gen/roundtrip",
+             test_pkg="./gen/roundtrip", test_pkgname="roundtrip", init=[MOD + "/http", "verifmod/gen/roundtrip"])
+    d.update(kw)
+    return d
+
+
 E_ASSUMPTIONS = [
     "the emitted Go code is regenerated on every run by the real plugin binaries built from /repo's working tree (schema family: see coverage.regenerated)",
     "buf.build/go/protovalidate is replaced by a stub module (the runtime is not on this image): claims hold for any behaviour of the rule validator",
@@ -89,4 +96,11 @@ PROPERTIES = {
         assumptions=E_ASSUMPTIONS + ["the query string is given as parsed url.Values (net/url parsing and percent-decoding are outside the claim)",
                                      "bodies are abstract JSON documents decoded by a model of protojson.Unmarshal (reset, JSON/proto names, unknown key => error, category checks)",
                                      "TS server (S2) and OpenAPI (S3) halves are not encoded in this check"]),
+    "C10": E_ROUNDTRIP(
+        overlay={"gen/roundtrip/zz_verif_c10.go": "harness/c10/c10_errors.go"},
+        harnesses=[dict(func="VerifC10HandlerError", reach=["C10/handler/decided", "C10/handler/hook-wrote", "C10/client/mapped"], quick=dict(budget=300, parts=8), thorough=dict(budget=1200, parts=16))],
+        bounds_text={"quick": "handler error in {plain, *Error, *ValidationError(1 violation), custom *NotFoundError, wrapped *Error, empty *ValidationError} with symbolic strings <= 4 x request content type in 6 values x error hook in {none, returns nil, returns message} x {sets header, calls WriteHeader(401|404|409|503), writes body} (all combinations); response fed to the emitted client's handleErrorResponse"},
+        assumptions=E_ASSUMPTIONS + ["responses are observed through a recording ResponseWriter that freezes status and headers at the first WriteHeader/Write (net/http's documented rule)",
+                                     "binary transport: decoding the bytes of one message type as another type is outside the model (client mapping checked only where types coincide)",
+                                     "request/header validation failures (BindingMiddleware exits), field paths of rule violations, and the TS client/server are not yet part of this check"]),
 }
